@@ -230,7 +230,9 @@ class FanBeamGeometry(DivergentBeamGeometry):
         if np.array_equiv(src_to_det_init, 0):
             raise ValueError('`src_to_det_init` cannot be the zero vector')
         else:
-            src_to_det_init /= np.linalg.norm(src_to_det_init)
+            # Not in-place, the array may be owned by the caller
+            src_to_det_init = (src_to_det_init
+                               / np.linalg.norm(src_to_det_init))
 
         # Initialize stuff
         self.__src_to_det_init = src_to_det_init
@@ -344,7 +346,8 @@ class FanBeamGeometry(DivergentBeamGeometry):
         array([ 1., -4.])
         """
         # Get transformation and translation parts from `init_matrix`
-        init_matrix = np.asarray(init_matrix, dtype=float)
+        # Copy, the parts below are views and end up in the geometry
+        init_matrix = np.array(init_matrix, dtype=float, copy=True)
         if init_matrix.shape not in ((2, 2), (2, 3)):
             raise ValueError('`matrix` must have shape (2, 2) or (2, 3), '
                              'got array with shape {}'
@@ -973,7 +976,9 @@ class ConeBeamGeometry(DivergentBeamGeometry, AxisOrientedGeometry):
         if np.linalg.norm(src_to_det_init) == 0:
             raise ValueError('`src_to_det_init` cannot be zero')
         else:
-            src_to_det_init /= np.linalg.norm(src_to_det_init)
+            # Not in-place, the array may be owned by the caller
+            src_to_det_init = (src_to_det_init
+                               / np.linalg.norm(src_to_det_init))
 
         # Get stuff out of kwargs, otherwise upstream code complains
         # about unknown parameters (rightly so)
@@ -1124,7 +1129,8 @@ class ConeBeamGeometry(DivergentBeamGeometry, AxisOrientedGeometry):
                                 ''.format(key))
 
         # Get transformation and translation parts from `init_matrix`
-        init_matrix = np.asarray(init_matrix, dtype=float)
+        # Copy, the parts below are views and end up in the geometry
+        init_matrix = np.array(init_matrix, dtype=float, copy=True)
         if init_matrix.shape not in ((3, 3), (3, 4)):
             raise ValueError('`matrix` must have shape (3, 3) or (3, 4), '
                              'got array with shape {}'
